@@ -78,6 +78,29 @@ CLAIMS = {
     ),
 }
 
+# ---- refinements of the claim texts after the checks were extended (kept separate so the table above stays readable)
+CONF = (" A recorded run that the specification cannot explain (trace rejected) is reported as a violation of the property: the code has left the design on which the property is established.")
+CLAIMS["C03"]["text"] += " The family also has a sender at the maximum nonce (NonceTooLow against it, nonce overflow), a block in which a rejected speculative attempt is followed on the same worker by a transaction touching the same account, and a driver call with a wrong nonce whose body writes (badnonce programs of Grevm.tla); a vacuity guard requires the in-order outcomes of each block to mix skipped and executed transactions." + CONF
+CLAIMS["C04"]["text"] += " The enumeration includes a block whose invalid transaction at the commit head forces the sequential replay of the suffix after a committed prefix (a fault further down must carry its block index), and the coverage goal 'every predecessor is committed while the failing attempt is still running' of Grevm.tla is reached by TLC and its schedule replayed on the code. The design rule of finding F4 (a failing attempt at the commit head ran with the nonce check off, so with nonce checking on the suffix is revalidated in order) is part of Grevm.tla (guard GNonceReplay, programs marked badnonce); its counterexample is replayed on the code." + CONF
+CLAIMS["C06"]["text"] += " Blocks whose outcome is an error (persistent faults, also below an invalid transaction that forces the replay of the suffix) are part of the matrix; the stale-failure counterexample and coverage-goal schedules of Grevm.tla are replayed and validated." + CONF
+CLAIMS["C07"]["text"] += " Scheduler runs with the history hooks on are validated against Grevm.tla including the rule that an attempt which read any estimate leaves an ESTIMATE in the history (HE_Record rule of GrevmTrace.tla)." + CONF
+LIFE = (" rules/Lifecycle.tla gives, for every sequence of up to four transactions (self-destruct, funding, CREATE2 re-creation, slot stores, touch) on one account with three database images and two fork regimes (16800 cases), what every later transaction must observe; TLC checks the rule's consequences (deleted storage never reappears, a created account has only its own storage) and each case is applied transaction by transaction to revm State (must equal the rule) and to ParallelState (must equal both).")
+CLAIMS["C08"]["text"] += " The same blocks run forced-sequential and through the configuration matrix (the committed cache serves the sequential path)." + LIFE + CONF
+CLAIMS["C08"]["note"] = "pre-Shanghai forks are exercised only by the deployment blocks of C09; " + SCHED_NOTE
+CLAIMS["C09"]["text"] += " Deployment onto a pre-funded code-less address with zero value (only the code of the account changes) runs on Frontier, Homestead, Spurious Dragon and Berlin." + CONF
+CLAIMS["C10"]["text"] += " Histories include detaching the reverts of the held bundle between blocks (take_all_reverts) and re-creation of a destroyed address that still has storage in the database; an error returned by the state object is compared like any other value." + LIFE + CONF
+CLAIMS["C11"]["text"] += " Implementations that swallow a facade error and answer with a milder halt, or ignore it altogether, are run with a fault at every key against the well-behaved twin program as reference (the facade's fault must win); the stale-failure counterexample and the coverage goal 'commit during a failing attempt' of Grevm.tla are replayed on the code." + CONF
+CLAIMS["C12"]["text"] = ("rules/Delegated.tla states the guard as a rule over call paths: the transaction calls a delegated EOA or an ordinary contract directly, or through one CALL / DELEGATECALL / CALLCODE / STATICCALL hop, or is a create transaction; the frame's CONTEXT account decides (CALL / STATICCALL: the callee, DELEGATECALL / CALLCODE: the caller). TLC checks the rule's consequences (exactness, nonce protection) and enumerates all 304 cases (19 paths x CREATE/CREATE2 x guard on/off x Cancun/Prague/Osaka/Amsterdam). Every case is one block with real bytecode and designators, run on the parallel path (controlled schedules) and the sequential path: where the rule says the creating frame halts, the run must equal stock revm on the block whose creator code is INVALID (same frame halt, all gas consumed) and the delegated account's own later transaction must be valid; everywhere else the run must equal stock revm on the block itself, bit for bit.")
+CLAIMS["C12"]["note"] = "call paths of at most one hop; the halt reason itself is not compared with the substituted block"
+CLAIMS["C13"]["text"] = ("rules/Reserve.tla states the reserve as a rule over one transaction's surviving value movements: transaction 0 is sent by an ordinary EOA or by the delegated account itself with top-level value, then a script of one or two movements over two delegated accounts (surviving CALL value, reverted CALL value, credit, SELFDESTRUCT, CREATE endowment) runs, then either account may send its own later transaction. The rule (some delegated account with protected debits ends below min(balance before its first such debit, sum of max costs of its later transactions) => charged top-level revert; the transaction's own top-level value is never a protected debit) is evaluated by TLC on all 8704 cases, its consequences are ASSUMEd over all of them (fundable at block start => never skipped for funds; inert without later transactions or without protected debits; not vacuous), and each case is written with verdict, kinds of the later transactions, final balances and nonces. Each realised case is a block with generated bytecode run on the parallel path under controlled schedules and on the sequential path: where the rule says the policy is inert the block must equal stock revm AND the rule's observables (which binds the rule model to the EVM); where it fires the rule's observables decide and both paths must agree. The one-debit family of rules/Delegated.tla part 2 (72 cases) is kept.")
+CLAIMS["C13"]["note"] = "scripts of at most two movements; quick tier realises one case per stratum (sender, operations, policy, verdict, later kinds), the thorough tier all"
+CLAIMS["C15"]["text"] = CLAIMS["C15"]["text"].replace(" The finality-timestamp clause is decided in Grevm.tla (FinalityFresh).", "") + " The finality-timestamp clause (a validation that predates a covering rewind never makes its transaction eligible) is decided at scheduler level: FinalityFresh of Grevm.tla (guards GTsBeforeScan / GFinTs / GFinCarry / GRewindNew), and real scheduler runs on 2-3 workers validated against the specification with the timestamp taken before the scan and the own and carried rewind timestamps of every finality decision compared with the specification's." + CONF
+CLAIMS["C16"]["text"] += CONF
+CLAIMS["C17"]["text"] += " The notifier call sites of the scheduler are covered at scheduler level: the counterexamples of Grevm.tla without each notification (GNotifyFin / GNotifyCom / GNotifyBatch / GNotifyCancel: a parked coordinator nobody wakes) are replayed on the real scheduler, where the controller never fires the stall timer, and scheduler runs on 1-3 workers are validated against the specification." + CONF
+CLAIMS["C17"]["note"] = "std park/unpark token semantics; sequentially consistent memory; schedule points at the hook sites only"
+for k in ("C01", "C02", "C05", "C14"):
+    CLAIMS[k]["text"] += CONF
+
 NOT_YET = "machinery under construction in this round; not yet claimed"
 
 
